@@ -31,6 +31,7 @@ import (
 	"fmt"
 	"math"
 	"math/rand"
+	"os"
 	"regexp"
 	"runtime"
 	"sort"
@@ -957,7 +958,11 @@ func TestVerifC14(t *testing.T) {
 			out.Emit(vc.M{"kind": "violation", "predicate": pred, "site": site, "class": class, "what": what, "case": c})
 		}
 	}
+	replayMode := os.Getenv("VERIF_REPLAY") != ""
 	mismatch := func(what string, c any) {
+		if replayMode {
+			return // a replayed case carries no prediction
+		}
 		nMismatch++
 		if nMismatch <= 50 {
 			out.Emit(vc.M{"kind": "mismatch", "what": what, "case": c})
@@ -977,12 +982,17 @@ func TestVerifC14(t *testing.T) {
 					bb = bb[:600]
 				}
 				violation("DecodeTotal", r.site, r.class, fmt.Sprintf("Unmarshal%s panicked on %s input: %s", m, src, r.msg),
-					vc.M{"method": m, "src": src, "case": c, "bytes": string(bb)})
+					vc.M{"method": m, "src": src, "case": c, "bytes": string(bb), "bytes_b64": base64.StdEncoding.EncodeToString(b)})
 			}
 		}
 		return res
 	}
 
+	if rb := os.Getenv("VERIF_REPLAY_BYTES_B64"); rb != "" {
+		if b, err := base64.StdEncoding.DecodeString(rb); err == nil {
+			decodeAll(b, "replay-bytes", nil)
+		}
+	}
 	var validDocs [][]byte
 	for ci, c := range cases {
 		opsSeen[c.Op+":"+c.Corr.Op]++
@@ -1085,12 +1095,28 @@ func TestVerifC14(t *testing.T) {
 			_ = e.pv[0].Val.PubKey.Equal(k)
 		}
 	}
-	for n := 0; n <= len(e.keyEnc); n++ {
+	if rb := os.Getenv("VERIF_REPLAY_REG_B64"); rb != "" || os.Getenv("VERIF_REPLAY_REG") != "" {
+		raw, _ := base64.StdEncoding.DecodeString(rb)
+		in := append(make([]byte, 0, len(raw)), raw...)
+		switch os.Getenv("VERIF_REPLAY_REG") {
+		case "Registry.Decode":
+			for _, name := range []string{"ed25519", "", "ed25519\x00", "bls", "toolongtypename"} {
+				regCall("Registry.Decode", func() (gcrypto.PubKey, error) { return e.reg.Decode(name, in) }, in)
+			}
+		case "NewEd25519PubKey":
+			regCall("NewEd25519PubKey", func() (gcrypto.PubKey, error) { return gcrypto.NewEd25519PubKey(in) }, in)
+		default:
+			regCall("Registry.Unmarshal", func() (gcrypto.PubKey, error) { return e.reg.Unmarshal(in) }, in)
+		}
+	}
+	for n := 0; n <= len(e.keyEnc) && !replayMode; n++ {
 		in := append(make([]byte, 0, n), e.keyEnc[:n]...) // capacity == length
 		regCall("Registry.Unmarshal", func() (gcrypto.PubKey, error) { return e.reg.Unmarshal(in) }, in)
 		distinct[fmt.Sprintf("reg|prefix|%d", n)] = struct{}{}
 	}
-	regCall("Registry.Unmarshal", func() (gcrypto.PubKey, error) { return e.reg.Unmarshal(nil) }, nil)
+	if !replayMode {
+		regCall("Registry.Unmarshal", func() (gcrypto.PubKey, error) { return e.reg.Unmarshal(nil) }, nil)
+	}
 	for i := 0; i < nRegRandom; i++ {
 		n := e.rng.Intn(48)
 		in := make([]byte, n)
